@@ -233,6 +233,8 @@ structure Task2 where
   /-- parameter values the object holds (the creator's; they can differ from `params` only in parameters that do
   not enter the key) -/
   objParams : List (Str × PVal) := []
+  /-- class of the object (the creator's; differs from `cid` only when two classes carry one task name) -/
+  objCid : Str := []
 
 def toKeyParams (decls : List ParamDecl) (vals : List (Str × PVal)) : List Key.Param :=
   decls.filterMap (fun d => (get? d.name vals).map (fun v =>
@@ -240,19 +242,19 @@ def toKeyParams (decls : List ParamDecl) (vals : List (Str × PVal)) : List Key.
 
 /-- the registry of a (Multi)Chain: `(slug, key) ↦ (object id, namespace and parameter values of the config that
 created the object)` -/
-abbrev Registry := List ((Str × Str) × (Nat × Option Str × List (Str × PVal)))
+abbrev Registry := List ((Str × Str) × (Nat × Option Str × List (Str × PVal) × Str))
 
-def regGet (k : Str × Str) : Registry → Option (Nat × Option Str × List (Str × PVal))
+def regGet (k : Str × Str) : Registry → Option (Nat × Option Str × List (Str × PVal) × Str)
   | [] => none
   | (k', v) :: r => if k'.1 == k.1 && k'.2 == k.2 then some v else regGet k r
 
 /-- `Chain._create_task` with a registry: an object registered under `(slug, key)` is reused, otherwise a new
 object (fresh id) is created and registered -/
-def assign (reg : Registry) (next : Nat) (k : Str × Str) (ns : Option Str) (ps : List (Str × PVal)) :
-    Nat × Option Str × List (Str × PVal) × Registry × Nat :=
+def assign (reg : Registry) (next : Nat) (k : Str × Str) (ns : Option Str) (ps : List (Str × PVal)) (cid : Str := []) :
+    Nat × Option Str × List (Str × PVal) × Registry × Nat × Str :=
   match regGet k reg with
-  | some (o, ons, ops) => (o, ons, ops, reg, next)
-  | none => (next, ns, ps, reg ++ [(k, (next, ns, ps))], next + 1)
+  | some (o, ons, ops, ocid) => (o, ons, ops, reg, next, ocid)
+  | none => (next, ns, ps, reg ++ [(k, (next, ns, ps, cid))], next + 1, cid)
 
 structure B2 where
   done : List Task2
@@ -277,9 +279,9 @@ def recreate (H : Str → Str) (pr : Char → Bool) (t1s : List (Task1 × List (
             | .task f => (st1.done.find? (fun t => t.full == f)).map (fun t2 => (kv.1, t2.key))
             | .dflt _ => none)
           let key := Key.keyOf H pr (toKeyParams t.cls.params t.params) t.ns inKeys
-          let (oid, ons, ops, reg', next') := assign st1.reg st1.next (t.cls.slug, key) t.ns t.params
+          let (oid, ons, ops, reg', next', ocid) := assign st1.reg st1.next (t.cls.slug, key) t.ns t.params t.cls.cid
           .ok { done := st1.done ++ [{ full := t.full, cid := t.cls.cid, slug := t.cls.slug, ns := t.ns, cfgIx := t.cfgIx,
-                                       params := t.params, inputs := ins, key := key, objId := oid, objNs := ons, objParams := ops }],
+                                       params := t.params, inputs := ins, key := key, objId := oid, objNs := ons, objParams := ops, objCid := ocid }],
                 reg := reg', next := next' }
 
 structure Chain where
@@ -302,7 +304,7 @@ def build (H : Str → Str) (pr : Char → Bool) (fs : FS) (cfs : CtxFS) (classe
   let st ← names.foldlM (fun s n => recreate H pr withIns fuel s n) { done := [], reg := reg, next := next }
   -- the second `_process_dependencies` pass: every task OBJECT resolves its inputs again, in the namespace of the
   -- config it was created with — for an object shared from an earlier chain that is the earlier chain's namespace
-  let ins2 ← st.done.mapM (fun t => match get? t.cid classes with
+  let ins2 ← st.done.mapM (fun t => match get? t.objCid classes with
     | some c => (resolveInputs classes names t.full c t.objNs).map (fun i => (t.objId, i))
     | none => .error .notFound)
   -- an object listed under several names keeps the inputs set last
